@@ -42,6 +42,9 @@ def run(rep, tier):
     rep.rule("R9.7", "the cached product AV stays A*V: Ritz vectors are q = V U and residues AV U - q diag(lambda) in both Ritz routines; a restart transforms AV by the same "
                      "matrix M as the retained search vectors (V' = V M, or q.leftCols(r) with M = U.leftCols(r)); necessary for 'Success implies residual below tolerance', "
                      "because every later convergence test reads residues computed from AV")
+    rep.rule("R9.8", "computeCorrectionVector hands back finite entries only: the final element-wise filter maps NaN, +inf and -inf to 0 and keeps finite values "
+                     "(r_k/(D_k - lambda) is infinite when a Ritz value equals a diagonal element; an infinity becomes NaN at normalisation and the solver throws "
+                     "instead of reporting through its status)")
     rep.rule("R9.5", "option tables: literals accepted by set_tolerance / set_correction / set_size_update equal the choices of the gwbse option description; every enumerator of CORR/UPDATE/MATRIX_TYPE is handled")
     host = os.path.join(front.VERIF, "hosts", "xtp_davidson.cc")
     units = [host, front.repo("xtp/src/libxtp/davidsonsolver.cc")]
@@ -283,6 +286,7 @@ def run(rep, tier):
                           "%s: switch over %s handles %s of %s" % (f.qname, en, sorted(labels), sorted(names)), f.loc(sw))
     check_extend(rep, F)
     check_av_invariant(rep, F)
+    check_correction_filter(rep, F)
     rep.assumptions += ["that returned values are the lowest eigenvalues, orthonormality, residual bounds, convergence for diagonally dominant "
                         "matrices and the Hamiltonian mode are numerical properties: not decided (most of the property)"]
 
@@ -454,3 +458,34 @@ def check_av_invariant(rep, F):
                 str(vv)[:120], str(M)[:120])
         rep.check(ok, "R9.7", "restart|%s" % ("SYMM" if symm else "HAM"), "restart transforms AV and the retained vectors by the same matrix", "DavidsonSolver::restart (%s): %s" % ("SYMM" if symm else "HAM", why),
                   f.loc(av[0]["node"]) if av else f.loc(), sample=True)
+
+
+def check_correction_filter(rep, F):
+    import sympy as sp
+    from vsa.cases import decide, resolve_ite
+    f = F.one(D + "computeCorrectionVector")
+    rep.analysed(f)
+    fo = Fold(f, opaque_types=r"Eigen::Matrix<").run()
+    rets = [e for e in fo.events if e["kind"] == "return"]
+    ok, why = len(rets) == 1 and str(getattr(rets[0]["value"], "func", "")) == "unaryExpr" and len(rets[0]["value"].args) == 2, \
+        "the correction is not returned through one element-wise filter (returns %s)" % [str(e["value"])[:80] for e in rets]
+    if ok:
+        lam = getattr(fo, "lambdas", {}).get(str(rets[0]["value"].args[1]))
+        ok, why = lam is not None and len(lam.get("params", [])) == 1, "the filter is not a one-argument lambda"
+    if ok:
+        v = S("_v")
+        r = fo.eval_lambda(lam, [v])
+        conds = getattr(fo, "conds", {})
+
+        def orc(lf):
+            fn = str(getattr(lf, "func", ""))
+            if fn in ("isfinite", "isnan", "isinf") and lf.args and lf.args[0] == v:
+                return ({"isfinite": "FINITE", "isnan": "NAN", "isinf": "INF"}[fn], True)
+            return None
+        for kind, A, want in (("a finite value", {"FINITE": True, "NAN": False, "INF": False}, v), ("NaN", {"FINITE": False, "NAN": True, "INF": False}, sp.Integer(0)),
+                              ("an infinity", {"FINITE": False, "NAN": False, "INF": True}, sp.Integer(0))):
+            got = resolve_ite(r, lambda cs: decide(conds[cs], None, A, orc, conds) if cs in conds else None) if hasattr(r, "args") else r
+            if got != want:
+                ok, why = False, "the filter turns %s into %s (required %s): %s" % (kind, got, want, "an infinite entry survives, becomes NaN when the vector is normalised and poisons the search space" if kind == "an infinity" else "")
+                break
+    rep.check(ok, "R9.8", "finite-correction", "non-finite entries of the correction vector become 0", "DavidsonSolver::computeCorrectionVector: " + why, f.loc(), sample=True)
